@@ -28,7 +28,7 @@ run)
     t=$(cd $M/repo && CARGO_NET_OFFLINE=true cargo test --workspace --offline 2>&1 | grep -E "^test result" | awk '{p+=$4; f+=$6} END {print p" passed "f" failed"}')
     echo "$name: repo tests: $t"
   fi
-  out=$(cd $M/harness && CARGO_NET_OFFLINE=true cargo build --release --message-format=short 2>&1 && CARGO_NET_OFFLINE=true cargo build --profile plain --message-format=short 2>&1) || { echo "$name: BUILD FAILED"; echo "$out" | grep error | head -5; exit 2; }
+  out=$(cd $M/harness && CARGO_NET_OFFLINE=true cargo build --release --message-format=short 2>&1 && { [ -n "$NO_PLAIN" ] || CARGO_NET_OFFLINE=true cargo build --profile plain --message-format=short 2>&1; }) || { echo "$name: BUILD FAILED"; echo "$out" | grep error | head -5; exit 2; }
   res=""
   for id in $ids; do
     o=$(cd /verif && VP_OUT_DIR=$M/out VERIF_SEED=${VERIF_SEED:-0} $M/target/release/vp $id ${TIER:-quick} 2>&1); rc=$?
